@@ -417,6 +417,28 @@ func (c *cnet) noteSigned(nd *vnode, v *types.Vote) {
 	}
 }
 
+// C12: a lock does not outlive a +2/3 prevote for something else in a later round the node has reached
+// (this version prevotes its locked block whatever is proposed: releasing the lock is what lets a
+// height terminate once the others have moved on)
+func (c *cnet) checkLock(nd *vnode) {
+	if nd.down || nd.panicked != "" {
+		return
+	}
+	rs := nd.cs.GetRoundState()
+	if rs.LockedBlock == nil || rs.Votes == nil {
+		return
+	}
+	for r := rs.LockedRound + 1; r <= rs.Round; r++ {
+		if pv := rs.Votes.Prevotes(r); pv != nil {
+			if b, ok := pv.TwoThirdsMajority(); ok && !bytes.Equal(b.Hash, rs.LockedBlock.Hash()) {
+				c.hit("lock-kept-against-later-polka", fmt.Sprintf("node%d at %d/%d stays locked on %x from round %d although it holds +2/3 prevotes for %x in round %d",
+					nd.idx, rs.Height, rs.Round, rs.LockedBlock.Hash(), rs.LockedRound, b.Hash, r))
+				return
+			}
+		}
+	}
+}
+
 // C01/C02 on every commit
 func (c *cnet) checkCommitted(nd *vnode, h int64, b *types.Block) {
 	for j, o := range c.nodes {
@@ -554,6 +576,7 @@ func (c *cnet) deliver(nd *vnode, m netMsg) {
 	outs := c.collect(nd, hBefore)
 	nd.trace = append(nd.trace, sxL(in, c.observe(nd, outs)))
 	c.sysNote(nd, hBefore, in)
+	c.checkLock(nd)
 }
 
 func wireReadBlock(ps *types.PartSet, n *int, err *error) *types.Block {
@@ -598,6 +621,7 @@ func (c *cnet) fire(nd *vnode) {
 	outs := c.collect(nd, hBefore)
 	nd.trace = append(nd.trace, sxL(in, c.observe(nd, outs)))
 	c.sysNote(nd, hBefore, in)
+	c.checkLock(nd)
 }
 
 // own messages: learn the blocks honest proposers create before delivering their parts
@@ -692,9 +716,13 @@ func (c *cnet) stateKey(nd *vnode) string {
 		pb = fmt.Sprintf("%x", rs.ProposalBlock.Hash())
 	}
 	var vs []string
-	for r := int64(0); r <= rs.Votes.Round(); r++ {
+	for r := int64(0); r <= rs.Votes.Round()+3; r++ { // votes of later rounds are kept too (peer catch-up)
 		if pv := rs.Votes.Prevotes(r); pv != nil {
-			vs = append(vs, fmt.Sprintf("%d:%v/%v", r, pv.BitArray(), rs.Votes.Precommits(r).BitArray()))
+			// a round nobody has voted in yet is not part of "the votes it had received": whether its
+			// (empty) containers exist depends on whether enterNewRound ran in this process lifetime
+			if v := fmt.Sprintf("%d:%v/%v", r, pv.BitArray(), rs.Votes.Precommits(r).BitArray()); strings.Contains(v, "X") {
+				vs = append(vs, v)
+			}
 		}
 	}
 	return fmt.Sprintf("%d/%d/%d lock=%s block=%s votes=%s", rs.Height, rs.Round, rs.Step, lb, pb, strings.Join(vs, " "))
@@ -868,6 +896,22 @@ func (c *cnet) byzAct() {
 		v := c.byzSignVote(i, h, vr, t, bids[c.r.Intn(len(bids))], c.r.Chance(1, 12))
 		m := netMsg{msg: &pbft.VoteMessage{Vote: v}, from: from}
 		c.dist["byz=vote"]++
+		if c.r.Chance(1, 4) {
+			// the same signed vote again under every other validator's index (address and signature kept:
+			// the sign-bytes cover neither): it must count for its signer's slot only
+			c.dist["byz=vote-relabelled"]++
+			for idx := 0; idx < c.n; idx++ {
+				if idx == i {
+					continue
+				}
+				v2 := *v
+				v2.ValidatorIndex = idx
+				m2 := netMsg{msg: &pbft.VoteMessage{Vote: &v2}, from: from}
+				for _, nd := range live {
+					nd.inbox = append(nd.inbox, m2)
+				}
+			}
+		}
 		if c.r.Bool() {
 			c.archive[h] = append(c.archive[h], m)
 			for _, nd := range c.nodes {
